@@ -179,7 +179,10 @@ def lookupType (env : Env) (sc : Scope) (ref : String) : FuncLookup :=
   | pkg :: name :: _ =>
     match lookupPath env.imports pkg with
     | none => .notFound
-    | some path => if sc.pkgImported path then sc.importedLookup path name else .notFound
+    | some path =>
+      if !sc.pkgImported path then .notFound
+      else if !isExportedName name then .notFound   -- an unexported member of another package cannot be referred to
+      else sc.importedLookup path name
   | [] => .notFound
 
 /-- `lookupConverterFunc`: `(argType, retType, retError)` or the error text after the position -/
@@ -236,11 +239,11 @@ structure Comment where
   off : Nat := 0
   deriving Repr, DecidableEq, Inhabited
 
-/-- `isValidIdentifier`: letters, and digits except in first position (no `_`).  Non-ASCII
+/-- `isValidIdentifier`: letters, `_`, and digits except in first position; not the blank identifier alone.  Non-ASCII
 runes are taken to be letters (the harness only generates letters there). -/
 def isValidIdentifier (id : String) : Bool :=
-  id != "" &&
-  (id.toList.zipIdx.all fun (c, i) => c.isAlpha || c.toNat ≥ 128 || (0 < i && c.isDigit))
+  id != "" && id != "_" &&   -- the blank identifier cannot be referred to
+  (id.toList.zipIdx.all fun (c, i) => c.isAlpha || c == '_' || c.toNat ≥ 128 || (0 < i && c.isDigit))
 
 /-- result of parsing a list of notation lines -/
 structure ParseResult where
